@@ -66,6 +66,12 @@ theorem readValues_ok (w : List HCls) (cols : List Col) (kw kw' : Kwargs) :
 /-- extracted shape facts the proofs rely on (re-checked on every run) -/
 theorem row_guard : readRowGuard = true := by decide
 theorem records_schema : readRecordsSchema = true := by decide
+/-- the recorded schema is the one of the resolved batch (pointer requests included) -/
+theorem records_resolved (rq : Request) : recordedSchema rq = rq.cols := by
+  unfold recordedSchema
+  cases rq.pointer with
+  | none => rfl
+  | some p => simp only [show readRecordsResolved = true by decide, ite_true]
 theorem validation_wrapped : readValidationWrap.any ipcError.isA = true := by decide
 theorem aspy_wrapped : HCls.Exception ∈ readWrap := by decide
 
@@ -75,7 +81,7 @@ theorem readRequest_ok (rq : Request) (kw : Kwargs) (sch : Option (List Col)) :
     readRequest rq = .ok (kw, sch) ↔
       rq.ipcValid = true ∧ RowsOk rq ∧ Readable rq.cols ∧ kw = kwOf rq.cols [] ∧ sch = some rq.cols := by
   unfold readRequest readRequestWith RowsOk
-  rw [row_guard, records_schema]
+  rw [row_guard, records_schema, records_resolved]
   cases hv : rq.ipcValid with
   | false => simp; split <;> simp
   | true =>
@@ -1124,12 +1130,19 @@ theorem C06 (site : Site) (hs : site ∈ sites) (c : Call) (hw : WF c) :
 
 /-- non-vacuity: a conforming call that is invoked, at a real site -/
 example : (serve http_unary ⟨[⟨"a".toList, "int64".toList, false, false, .plain⟩],
-    ⟨[⟨"a".toList, "int64".toList, false, .other⟩], 1, true⟩, true, .pass, none⟩).invokedWith
+    ⟨[⟨"a".toList, "int64".toList, false, .other⟩], 1, true, none⟩, true, .pass, none⟩).invokedWith
       = some [("a".toList, .other)] := by decide
 
 /-- non-vacuity: a retyped column is refused with 400 before the method runs -/
 example : (serve http_unary ⟨[⟨"a".toList, "int64".toList, false, false, .plain⟩],
-    ⟨[⟨"a".toList, "int32".toList, false, .other⟩], 1, true⟩, true, .pass, none⟩)
+    ⟨[⟨"a".toList, "int32".toList, false, .other⟩], 1, true, none⟩, true, .pass, none⟩)
       = ⟨none, .http 400 false, some typeError, some (.fieldType 0)⟩ := by decide
+
+/-- non-vacuity: a request routed through shared memory whose *pointer* batch shows the declared schema while the batch
+it resolves to is retyped is refused on the resolved columns, before the method runs -/
+example : (serve pipe_unary ⟨[⟨"a".toList, "int64".toList, false, false, .plain⟩],
+    ⟨[⟨"a".toList, "int32".toList, false, .other⟩], 1, true, some [⟨"a".toList, "int64".toList, false, .null⟩]⟩,
+    true, .pass, none⟩)
+      = ⟨none, .errorStream, some typeError, some (.fieldType 0)⟩ := by decide
 
 end VgiVerif.C06
